@@ -114,10 +114,37 @@ fn gen_headers(rng: &mut Rng, budget: usize) -> Vec<(String, String)> {
     let mut out: Vec<(String, String)> = Vec::new();
     let mut used = 0usize;
     for _ in 0..n {
-        let (name, value) = match rng.below(4) {
+        let (name, value) = match rng.below(5) {
             0 => {
                 let (n, v) = *rng.pick(&STATIC_NAMES);
                 (n.to_string(), v.to_string()) // name and value both in the static table
+            }
+            4 => {
+                // near misses of static-table rows: the value differs from the row's value only in
+                // letter case, by one trailing / missing character, or belongs to another row of
+                // the same name; the name may be one character away from a table name
+                let rows: Vec<&(&str, &str)> = crate::refcodec::STATIC_TABLE.iter().filter(|(n, v)| !n.starts_with(':') && !v.is_empty()).collect();
+                let (n, v) = **rng.pick(&rows);
+                let value = match rng.below(6) {
+                    0 => v.to_uppercase(),
+                    1 => v.to_lowercase(),
+                    2 => {
+                        let mut c = v.chars();
+                        match c.next() {
+                            Some(f) => f.to_uppercase().collect::<String>() + c.as_str(),
+                            None => String::new(),
+                        }
+                    }
+                    3 => format!("{v}x"),
+                    4 => v[..v.len() - 1].to_string(),
+                    _ => v.to_string(),
+                };
+                let name = match rng.below(4) {
+                    0 => format!("{n}s"),
+                    1 => n[..n.len() - 1].to_string(),
+                    _ => n.to_string(),
+                };
+                (name, value)
             }
             1 => {
                 let (n, _) = *rng.pick(&STATIC_NAMES);
